@@ -3,6 +3,7 @@ import HdVerif.Generated.T19a
 import HdVerif.Generated.T19b
 import HdVerif.Generated.T19s
 import HdVerif.Generated.T19m
+import HdVerif.Generated.T19l
 /-! C19: `pm.ParametricMap`, reading its frames back, `sc.SCImage`.
 
 Translated from the current source (tie T): the pixel data type by dtype (`Gen.pmPixelDataType`), its
@@ -127,21 +128,31 @@ def admission (x : PMInput) : Except ErrKind (Int × String × Int × Int × Int
       let (ba, bs, hb, pr) ← pmBits t x.itemsize
       .ok (t, attr, ba, bs, hb, pr)
 
-/-- the loop nest `for i in range(n): for j in range(m)` of `ParametricMap.__init__` -/
+/-- a loop nest `for i in range(n): for j in range(m)` (reference form used by the proofs; the constructor itself is
+    written with the REGENERATED loop skeleton `Gen.pmFrameLoop` etc., `Proofs/PMap.build_ok` relates the two) -/
 def loopNest {α} (n m : Nat) (f : Nat → Nat → α) : List α :=
   (List.range n).flatMap (fun i => (List.range m).map (fun j => f i j))
 
+/-- the plane one iteration of the frame loop encodes: `pixel_array[..]` with the regenerated subscript -/
+def loopPlane (x : PMInput) (o i : Nat) : List Cell := plane x (pmPlaneSubscript o i).1 (pmPlaneSubscript o i).2
+
+/-- the constructor.  Which plane becomes which frame, which position / dimension index / mappings are attached to it and
+    when the mappings are shared is NOT written here: it is the loop skeleton regenerated from `pm/sop.py` (T19l:
+    `pmFrameLoop`, `pmPlaneSubscript`, `pmPositionIndex`, `pmMappingIndex`, `pmHasMultipleMappings`,
+    `pmSharedMappingIndex`); T19l also checks that one frame and one per-frame item are appended per iteration, that
+    `NumberOfFrames = len(frames)` and that the frames are joined into the element chosen by T19a. -/
 def build (x : PMInput) : Except ErrKind PMObject := do
   let (_, attr, ba, bs, hb, pr) ← admission x
-  let multi := decide (x.m > 1)
+  let multi := pmHasMultipleMappings x.m
   .ok {
     element := attr, bitsAllocated := ba, bitsStored := bs, highBit := hb, pixelRepresentation := pr,
     rows := x.r, cols := x.c, itemsize := x.itemsize,
-    numberOfFrames := (loopNest x.n x.m (plane x)).length,
-    frames := loopNest x.n x.m (plane x),
-    shared := if multi then none else some (x.maps 0),
-    perFrame := loopNest x.n x.m (fun i j =>
-      { position := x.pos i, dimensionIndex := dimensionIndex x i, mappings := if multi then some (x.maps j) else none }) }
+    numberOfFrames := (pmFrameLoop x.n x.m (loopPlane x)).length,
+    frames := pmFrameLoop x.n x.m (loopPlane x),
+    shared := if multi then none else some (x.maps pmSharedMappingIndex),
+    perFrame := pmFrameLoop x.n x.m (fun o i =>
+      { position := x.pos (pmPositionIndex o i), dimensionIndex := dimensionIndex x (pmPositionIndex o i),
+        mappings := if multi then some (x.maps (pmMappingIndex o i)) else none }) }
 
 /-- the native pixel data element: `b''.join(frames)`, each frame `plane.flatten().tobytes()` -/
 def PMObject.pixelData (o : PMObject) : List Nat := (o.frames.map List.flatten).flatten
@@ -205,6 +216,39 @@ def applyMapping (mp : Mapping) (vals : List Int) : Except ErrKind (List Rat) :=
 
 /-- unsigned integer value of a cell -/
 def cellValue (cl : Cell) : Int := (ofLeBytes cl : Int)
+
+/-! ### the encapsulated arm: `_encode_frame` -> `frame.encode_frame`, `encapsulate(frames)` (T19l checks both textually) -/
+
+/-- an encapsulated parametric map: the data set attributes and one item of encapsulated pixel data per frame -/
+structure PMEncapsulated where
+  obj : PMObject
+  items : List (List Nat)
+
+/-- the array `_encode_frame` hands to `encode_frame` in iteration `(o, i)`: the plane, 2-D, with the input's dtype
+    (the admitted dtypes of encapsulated maps are uint8 / uint16: the cells are unsigned integers) -/
+def planeFrame (x : PMInput) (dt : DType) (o i : Nat) : Frame := ⟨x.r, x.c, none, dt, (loopPlane x o i).map cellValue⟩
+
+/-- the parameters of that call: transfer syntax and the data set's own Bits Allocated / Bits Stored / Photometric
+    Interpretation (`MONOCHROME2`) / Pixel Representation -/
+def pmParams (ts : String) (o : PMObject) : Params :=
+  ⟨ts, o.bitsAllocated, o.bitsStored, "MONOCHROME2", o.pixelRepresentation, none⟩
+
+/-- the constructor with an encapsulated transfer syntax: admission, frame order and metadata as `build`, every plane
+    through `encode_frame` (C07's model) and the codec `c` behind it -/
+def buildEncapsulated (c : CodecImpl) (x : PMInput) : Except ErrKind PMEncapsulated := do
+  let o ← build x
+  match DType.ofName x.dtypeStr with
+  | none => .error .value
+  | some dt =>
+    let items ← (pmFrameLoop x.n x.m (planeFrame x dt)).mapM (encodeFrame c (pmParams x.ts o))
+    .ok ⟨o, items⟩
+
+/-- `get_stored_frame(f + 1)` on it: item `f`, decoded by `decode_frame` with the data set's attributes -/
+def readStoredFrameEncapsulated (c : CodecImpl) (conv : List Int → List Int) (ts : String) (e : PMEncapsulated) (f : Nat) :
+    Except ErrKind (List Int) :=
+  match e.items[f]? with
+  | none => .error .index
+  | some b => decodeFrame c conv (pmParams ts e.obj) e.obj.rows e.obj.cols 1 b
 
 /-- `get_frame(f + 1, apply_real_world_transform=True, real_world_value_map_selector=sel)` -/
 def readReal (o : PMObject) (f : Nat) (sel : Selector) : Except ErrKind (List Rat) := do
